@@ -92,6 +92,16 @@ func (lrw *limitedResponseWriter) WriteHeader(statusCode int) {
 	if lrw.wroteHeader {
 		return
 	}
+	// An informational status (1xx interim response, e.g. 103 Early Hints) is forwarded at once and
+	// decides nothing: the final status still follows.
+	if statusCode >= 100 && statusCode < 200 && statusCode != http.StatusSwitchingProtocols {
+		lrw.ResponseWriter.WriteHeader(statusCode)
+		return
+	}
+	// Like net/http, the first status wins; later calls are ignored
+	if lrw.statusCode != 0 {
+		return
+	}
 	// Just record the status code, don't write it yet
 	lrw.statusCode = statusCode
 }
